@@ -3,6 +3,7 @@ package main
 
 import (
 	"fmt"
+	"os"
 	"time"
 
 	protoMetricsV1 "github.com/lindb/common/proto/gen/v1/linmetrics"
@@ -93,6 +94,60 @@ func brokerCase(out *vh.Out, off int, iv int64, tss []int64) {
 	out.Count("broker-batch")
 	out.Count(fmt.Sprintf("broker-batch-groups:%d", ngroups))
 	out.Check(idx, fmt.Sprintf("check_broker %s %s %s %s", vh.Z(int64(off)), vh.Z(iv), vh.ZList(tss), vh.List(groups)))
+}
+
+func rangeFamilies(out *vh.Out, r *vh.Rand, iv int64, nRanges int) {
+	dir, err := os.MkdirTemp("", "verif-c13-")
+	if err != nil {
+		panic(err)
+	}
+	defer os.RemoveAll(dir)
+	calc := timeutil.Interval(iv).Calculator()
+	now := time.Now().UnixMilli()
+	cur := calc.CalcFamilyTime(now)
+	// family start times going back from the current family, one of them left out
+	var starts []int64
+	f := cur
+	for i := 0; i < 5; i++ {
+		starts = append(starts, f)
+		f = calc.CalcFamilyTime(f - 1)
+	}
+	skip := r.Range(1, 3)
+	n, err := node.Open(dir, option.Intervals{{Interval: timeutil.Interval(iv), Retention: timeutil.Interval(40 * 24 * 3600 * 1000)}}, starts[0], false)
+	if err != nil {
+		out.Violation(0, "open", err.Error(), nil)
+		return
+	}
+	defer n.Close()
+	var existing []int64
+	for i, st := range starts {
+		if i == skip {
+			continue
+		}
+		if _, err := n.Shard.GetOrCrateDataFamily(st + 1000); err != nil {
+			out.Violation(0, "create family", err.Error(), nil)
+			return
+		}
+		existing = append(existing, st)
+	}
+	edge := func() int64 {
+		st := starts[r.Intn(len(starts))]
+		end := calc.CalcFamilyEndTime(st)
+		return []int64{st, st - 1, st + 1, end, end + 1, st + iv, st - iv, st + int64(r.Intn(int(end-st)))}[r.Intn(8)]
+	}
+	for k := 0; k < nRanges; k++ {
+		lo, hi := edge(), edge()
+		if lo > hi {
+			lo, hi = hi, lo
+		}
+		var got []int64
+		for _, fam := range n.Shard.GetDataFamilies(timeutil.Interval(iv).Type(), timeutil.TimeRange{Start: lo, End: hi}) {
+			got = append(got, fam.TimeRange().Start)
+		}
+		idx := out.Case(map[string]interface{}{"kind": "range-families", "interval": iv, "families": existing, "lo": lo, "hi": hi, "got": got}, len(got) >= 2)
+		out.Count("range-families")
+		out.Check(idx, fmt.Sprintf("check_range_families 0 %s %s %s %s %s", vh.Z(iv), vh.ZList(existing), vh.Z(lo), vh.Z(hi), vh.ZList(got)))
+	}
 }
 
 func main() {
@@ -200,6 +255,12 @@ func main() {
 		}
 	}
 	time.Local = time.UTC
+
+	// ---- the families a query range selects, on a real shard: families created for consecutive hours (10 s store) or
+	// days (5 min store) up to now, ranges whose ends fall on, just below and just above family boundaries
+	for _, iv := range []int64{10 * sec, 5 * min} {
+		rangeFamilies(out, r, iv, cfg.N/40+3)
+	}
 
 	// ---- planner
 	ivSets := [][]int64{{10 * sec}, {10 * sec, 5 * min, hour}, {sec, 10 * min}, {30 * sec, hour, day}, {10 * sec, 7 * min}}
